@@ -113,6 +113,7 @@ type workerState struct {
 	samples     []any
 	unjudged    int64
 	violations  []Violation
+	inconcl     []string
 	extra       map[string]any
 	curIdx      int64
 	curStart    int64 // unix nanos, 0 = idle
@@ -184,6 +185,15 @@ func (c *C) Fail(kind string, detail map[string]any) {
 	})
 }
 
+// Inconclusive records that this case could not be decided (checker timeout etc.).
+func (c *C) Inconclusive(reason string) {
+	c.w.mu.Lock()
+	if len(c.w.inconcl) < 5 {
+		c.w.inconcl = append(c.w.inconcl, fmt.Sprintf("case %d: %s", c.Idx, reason))
+	}
+	c.w.mu.Unlock()
+}
+
 func (c *C) Failed() bool {
 	c.w.mu.Lock()
 	defer c.w.mu.Unlock()
@@ -217,6 +227,7 @@ type WorkerResult struct {
 	Samples     []any            `json:"samples"`
 	Unjudged    int64            `json:"unjudged"`
 	Violations  []Violation      `json:"violations"`
+	Inconcl     []string         `json:"inconclusive"`
 	Extra       map[string]any   `json:"extra"`
 	Done        bool             `json:"done"`
 }
@@ -330,7 +341,7 @@ func workerMain(o workerOpts) int {
 	}
 	os.WriteFile(o.out+".hashes", hb, 0o644)
 	res := WorkerResult{Evaluations: w.evaluations, Cases: cases, Cover: w.cover, Samples: w.samples,
-		Unjudged: w.unjudged, Violations: w.violations, Extra: w.extra, Done: true}
+		Unjudged: w.unjudged, Violations: w.violations, Inconcl: w.inconcl, Extra: w.extra, Done: true}
 	b, err := json.Marshal(sanitizeJSON(res))
 	if err != nil {
 		fmt.Fprintln(os.Stderr, "marshal:", err)
